@@ -1,5 +1,5 @@
 SPECIFICATION Spec
-CONSTANTS MaxBr = 3 MaxN = 3 MaxM = 2
+CONSTANTS MaxBr = 3 MaxN = 2 MaxM = 2
 INVARIANT EvenlyFilled
 INVARIANT SameAsRun
 INVARIANT ZipTuples
